@@ -349,3 +349,9 @@ func RemoveAll(root string) {
 const Past = 1234567890
 
 func UnixTime(sec int64) time.Time { return time.Unix(sec, 0) }
+
+// SumOf is the content digest used in snapshots.
+func SumOf(b []byte) string {
+	h := sha256.Sum256(b)
+	return hex.EncodeToString(h[:8])
+}
